@@ -1,2 +1,4 @@
 import MoThreads.Model.Sched
 import MoThreads.Model.SignalCore
+import MoThreads.Props.C01
+import MoThreads.Props.C02
